@@ -431,6 +431,25 @@ class FromSpecifier:
             yield {"name": name, "pre": pre, "thunk": thunk, "post": post, "args": (r,), "describe": describe}
             # a parsed wildcard clause `==P.*` (a range carrying its own text) and `!=P.*` / `!=V` (a union of two half-lines carrying its text)
             yield from self.parsed_cases(th, f, ME, name)
+        yield from self.generic_case(th, f, ME)
+
+    def generic_case(self, th, f, ME):
+        """a GenericSpecifier (op, value) on a string variable: the installed view is the one `_get_specifier` derives, GenericSpecifier(op, value)
+        (all of whose fields take part in ==), for an atom that is not reversed"""
+        from pyvc.values import ClassRef
+        G = th.index.cls("GenericSpecifier")
+        name = z3.String(fresh_name("name"))
+        for op in ("==", "!=", "in", "not in"):
+            s = Obj(G, {"op": op, "value": z3.String(fresh_name("gvalue"))})
+
+            def post(ex, res, s=s):
+                if not isinstance(res, Obj) or res.cls.name != "MarkerExpression":
+                    return [("C10.from_specifier.generic.returns-atom", z3.BoolVal(False))]
+                inst = res.fields.get("_specifier")
+                same = res.fields["op"] == s.fields["op"] and res.fields["value"] is s.fields["value"] and res.fields["reversed"] is False
+                return [("C10.from_specifier.generic.installed-view-is-the-one-the-text-gives", z3.BoolVal(inst is None or (inst is s and same)))]
+            pre = [z3.And(*[name != z3.StringVal(v) for v in ("python_version", "python_full_version", "platform_release")])]
+            yield {"name": f"generic|{op}", "pre": pre, "thunk": (lambda ex, s=s: ex.call_function(f, [ClassRef(ME), name, s], inline=True)), "post": post, "args": ()}
 
     def parsed_cases(self, th, f, ME, name):
         from pyvc.values import ClassRef
